@@ -851,13 +851,18 @@ class SyncInterpreter(BaseInterpreter[TContext, TEvent]):
                         self._execute_builtin_action(
                             canonical, action_def, event
                         )
-                    except Exception:
+                    except Exception as exc:
                         logger.exception(
                             "🔥 Built-in action '%s' raised while handling "
                             "'%s'; skipping remaining actions.",
                             action_def.type,
                             event.type,
                         )
+                        # 🔔 Same contract as a failing user action (and as
+                        #    the async engine): the failure is contained but
+                        #    must stay observable through `on_action_error`.
+                        for plugin in self._plugins:
+                            plugin.on_action_error(self, action_def, exc)
                         return
                     continue
 
